@@ -30,6 +30,54 @@ def Request.everything : Request :=
   { lib := true, groups := true, kerning := true, features := true, data := true, images := true,
     all := true, loadDefault := false, custom := none }
 
+def Request.nothing : Request :=
+  { lib := false, groups := false, kerning := false, features := false, data := false, images := false,
+    all := false, loadDefault := false, custom := none }
+
+/-! ### the builder calls of `DataRequest` (data_request.rs:84-194), as the documentation states them -/
+
+inductive PartSwitch | lib | groups | kerning | features | data | images
+  deriving DecidableEq, Repr
+
+/-- one builder call; a filter carries a tag (for the protocol) next to its predicate -/
+inductive Call where
+  | all                                   -- `DataRequest::all()` / `default()`: everything
+  | none                                  -- `DataRequest::none()`: nothing
+  | layers (b : Bool)                     -- "include layers and their glyph data"
+  | defaultLayer (b : Bool)               -- "only load the default layer. If set, we will ignore the `layers` option"
+  | filter (tag : Char) (p : Str → Str → Bool)   -- "load a subset of layers using a closure ... overrides the `layers` option"
+  | part (s : PartSwitch) (b : Bool)      -- `lib(b)`, `groups(b)`, ...
+
+def Request.setPart (r : Request) (s : PartSwitch) (b : Bool) : Request :=
+  match s with
+  | .lib => { r with lib := b }
+  | .groups => { r with groups := b }
+  | .kerning => { r with kerning := b }
+  | .features => { r with features := b }
+  | .data => { r with data := b }
+  | .images => { r with images := b }
+
+def Request.getPart (r : Request) : PartSwitch → Bool
+  | .lib => r.lib
+  | .groups => r.groups
+  | .kerning => r.kerning
+  | .features => r.features
+  | .data => r.data
+  | .images => r.images
+
+/-- the documented meaning of one call -/
+def Request.step (r : Request) : Call → Request
+  | .all => Request.everything
+  | .none => Request.nothing
+  | .layers b => { r with all := b }
+  | .defaultLayer b => { r with loadDefault := b, all := false }
+  | .filter _ p => { r with custom := some p, all := false }
+  | .part s b => r.setPart s b
+
+/-- a request built by a sequence of calls, applied in order (the chain starts from `none()`; a leading `all()` /
+    `none()` call replaces it) -/
+def Req.apply (cs : List Call) : Request := cs.foldl Request.step Request.nothing
+
 def glyphsDir : Str := "glyphs".toList
 def defaultLayerName : Str := "public.default".toList
 
